@@ -630,9 +630,12 @@ const char *UtilContext::get_num(const char *token, uint32_t *num)
     return get_hex(token + 2, num);
   }
 
-  // Look for end incase there is an h there.
+  // Look for end of this number incase there is an h there.
   s = 0;
-  while (token[s] != 0) { s++; }
+  while (token[s] != 0 && token[s] != ' ' && !(token[s] == '-' && s != 0))
+  {
+    s++;
+  }
 
   if (s == 0) { return nullptr; }
 
@@ -801,9 +804,16 @@ const char *UtilContext::get_hex(const char *token, uint32_t *num)
     s++;
   }
 
+  if (s == 0)
+  {
+    printf("Illegal number '%s'\n", token);
+    return nullptr;
+  }
+
   *num = n;
 
-  if (token[s] != '-') s++;
+  // Skip the h suffix or the separating space, never the terminator.
+  if (token[s] != '-' && token[s] != 0) { s++; }
 
   return token + s;
 }
